@@ -14,12 +14,28 @@
 //! line/whitespace-splitting parser of the dialect the generator writes gives the expected records
 //! (fields as written, every entry in the row of its position and the column of its symbol, other
 //! columns zero, then end of input); float lexemes are converted with an exact integer algorithm.
+//!
+//! Alternative entry points (`alt`, shared with C15; oracle only, case lines and answers unchanged): on
+//! the cases whose line hash is even the same bytes under the same chunk schedule are also read through
+//! `Reader::new` (the main route is the free function `read`), and through `Reader::new` with every call
+//! of `next` replaced by an `Iterator` adaptor (`by_ref().take(1)`, `nth(0)`, `take(1).collect()`,
+//! `find`, then plain `next` again): the sequence of answers must be the one of the main route;
+//! `collect::<Result<Vec<_>, _>>()` must stop with the first error of the main route (or give as many
+//! records); `size_hint()` must bracket the number of items; every record's accessors and conversions
+//! must agree with each other (`matrix()` / `as_ref()` / `into_matrix()` / `From<Record>` / `clone()`;
+//! TRANSFAC `to_freq` against `to_counts().to_freq`, and with the pseudocount as f32 / array /
+//! `Pseudocounts`; `references()` of well-formed TRANSFAC records against a naive reading of the R*
+//! lines).  For C14 (well-formed files: any chunking) the bytes are also read from `io::Cursor`, `&[u8]`
+//! and a small `BufReader`.
 use crate::out::*;
 use crate::rng::Rng;
 use crate::Cfg;
 use lightmotif::abc::Alphabet;
 use lightmotif::abc::Dna;
 use lightmotif::abc::Protein;
+use lightmotif::abc::Pseudocounts;
+use lightmotif::pwm::CountMatrix;
+use lightmotif::pwm::FrequencyMatrix;
 use lightmotif_io::error::Error;
 use std::collections::VecDeque;
 use std::io::BufRead;
@@ -215,65 +231,114 @@ fn letters_of<A: Alphabet>() -> &'static [u8] {
     }
 }
 
-fn drive_alpha<A: Alphabet>(fmt: &str, sched: &[usize], data: &[u8], detail: bool, extra: usize) -> String {
-    let rd = || ChunkedReader::new(data, sched);
+/// how the reader is reached and consumed
+#[derive(Clone, Copy, PartialEq, Eq, Debug)]
+pub enum Route {
+    /// the free function `read` of the format, plain `next` (the main route)
+    Free,
+    /// `Reader::new`, plain `next`
+    New,
+    /// `Reader::new`, every call of `next` through an `Iterator` adaptor (see `Adapted`)
+    Adapted,
+}
+
+/// call k of `next` goes through another provided method / adaptor of `Iterator`; the sequence of
+/// items must be the one plain `next` gives
+pub struct Adapted<I> {
+    inner: I,
+    calls: usize,
+}
+
+impl<I: Iterator> Iterator for Adapted<I> {
+    type Item = I::Item;
+    fn next(&mut self) -> Option<I::Item> {
+        let k = self.calls;
+        self.calls += 1;
+        match k % 5 {
+            0 => self.inner.by_ref().take(1).next(),
+            1 => self.inner.nth(0),
+            2 => self.inner.by_ref().take(1).collect::<Vec<_>>().pop(),
+            3 => self.inner.find(|_| true),
+            _ => self.inner.next(),
+        }
+    }
+}
+
+macro_rules! by_route {
+    ($route:expr, $free:expr, $new:expr, $dump:expr, $detail:expr, $extra:expr, $len:expr) => {
+        match $route {
+            Route::Free => consume(|| $free, $dump, $detail, $extra, $len),
+            Route::New => consume(|| $new, $dump, $detail, $extra, $len),
+            Route::Adapted => consume(|| Adapted { inner: $new, calls: 0 }, $dump, $detail, $extra, $len),
+        }
+    };
+}
+
+fn dump_transfac<A: Alphabet>(r: &lightmotif_io::transfac::Record<A>) -> String {
+    format!(
+        "{} {} {} {} {} {}",
+        hex_opt(r.id().map(|s| s.as_bytes())),
+        hex_opt(r.accession().map(|s| s.as_bytes())),
+        hex_opt(r.name().map(|s| s.as_bytes())),
+        hex_opt(r.description().map(|s| s.as_bytes())),
+        match r.data() {
+            None => "nodata".to_string(),
+            Some(m) => dump_f32::<A>(m),
+        },
+        match r.to_counts() {
+            None => "nocounts".to_string(),
+            Some(c) => format!("counts {}", dump_u32::<A>(c.matrix())),
+        }
+    )
+}
+
+fn drive_alpha<A: Alphabet, B: BufRead>(fmt: &str, rd: impl FnOnce() -> B, route: Route, detail: bool, extra: usize, len: usize) -> String {
     match fmt {
-        "jaspar16" => consume(
-            || lightmotif_io::jaspar16::read::<_, A>(rd()),
-            |r| format!("{} {} {}", hex(r.id().as_bytes()), hex_opt(r.description().map(|s| s.as_bytes())), dump_u32::<A>(r.matrix().matrix())),
+        "jaspar16" => by_route!(
+            route,
+            lightmotif_io::jaspar16::read::<_, A>(rd()),
+            lightmotif_io::jaspar16::Reader::<_, A>::new(rd()),
+            |r: &lightmotif_io::jaspar16::Record<A>| format!("{} {} {}", hex(r.id().as_bytes()), hex_opt(r.description().map(|s| s.as_bytes())), dump_u32::<A>(r.matrix().matrix())),
             detail,
             extra,
-            data.len(),
+            len
         ),
-        "uniprobe" => consume(
-            || lightmotif_io::uniprobe::read::<_, A>(rd()),
-            |r| format!("{} {}", hex(r.id().as_bytes()), dump_f32::<A>(r.matrix().matrix())),
+        "uniprobe" => by_route!(
+            route,
+            lightmotif_io::uniprobe::read::<_, A>(rd()),
+            lightmotif_io::uniprobe::Reader::<_, A>::new(rd()),
+            |r: &lightmotif_io::uniprobe::Record<A>| format!("{} {}", hex(r.id().as_bytes()), dump_f32::<A>(r.matrix().matrix())),
             detail,
             extra,
-            data.len(),
+            len
         ),
-        "transfac" => consume(
-            || lightmotif_io::transfac::read::<_, A>(rd()),
-            |r| {
-                format!(
-                    "{} {} {} {} {} {}",
-                    hex_opt(r.id().map(|s| s.as_bytes())),
-                    hex_opt(r.accession().map(|s| s.as_bytes())),
-                    hex_opt(r.name().map(|s| s.as_bytes())),
-                    hex_opt(r.description().map(|s| s.as_bytes())),
-                    match r.data() {
-                        None => "nodata".to_string(),
-                        Some(m) => dump_f32::<A>(m),
-                    },
-                    match r.to_counts() {
-                        None => "nocounts".to_string(),
-                        Some(c) => format!("counts {}", dump_u32::<A>(c.matrix())),
-                    }
-                )
-            },
-            detail,
-            extra,
-            data.len(),
-        ),
+        "transfac" => by_route!(route, lightmotif_io::transfac::read::<_, A>(rd()), lightmotif_io::transfac::Reader::<_, A>::new(rd()), dump_transfac::<A>, detail, extra, len),
         _ => "bad-format".into(),
     }
 }
 
-pub fn drive(fmt: &str, alpha: &str, sched: &[usize], data: &[u8], detail: bool, extra: usize) -> String {
+/// drive the reader of `fmt` over any `BufRead`
+pub fn drive_on<B: BufRead>(fmt: &str, alpha: &str, rd: impl FnOnce() -> B, route: Route, detail: bool, extra: usize, len: usize) -> String {
     if fmt == "jaspar" {
-        return consume(
-            || lightmotif_io::jaspar::read(ChunkedReader::new(data, sched)),
-            |r| format!("{} {} {}", hex(r.id().as_bytes()), hex_opt(r.description().map(|s| s.as_bytes())), dump_u32::<Dna>(r.matrix().matrix())),
+        return by_route!(
+            route,
+            lightmotif_io::jaspar::read(rd()),
+            lightmotif_io::jaspar::Reader::new(rd()),
+            |r: &lightmotif_io::jaspar::Record| format!("{} {} {}", hex(r.id().as_bytes()), hex_opt(r.description().map(|s| s.as_bytes())), dump_u32::<Dna>(r.matrix().matrix())),
             detail,
             extra,
-            data.len(),
+            len
         );
     }
     if alpha == "dna" {
-        drive_alpha::<Dna>(fmt, sched, data, detail, extra)
+        drive_alpha::<Dna, B>(fmt, rd, route, detail, extra, len)
     } else {
-        drive_alpha::<Protein>(fmt, sched, data, detail, extra)
+        drive_alpha::<Protein, B>(fmt, rd, route, detail, extra, len)
     }
+}
+
+pub fn drive(fmt: &str, alpha: &str, sched: &[usize], data: &[u8], detail: bool, extra: usize) -> String {
+    drive_on(fmt, alpha, || ChunkedReader::new(data, sched), Route::Free, detail, extra, data.len())
 }
 
 pub struct Case {
@@ -686,6 +751,359 @@ pub fn expected(fmt: &str, alpha: &str, data: &[u8]) -> Option<String> {
         "uniprobe" => expected_uniprobe(text, abc),
         "transfac" => expected_transfac(text, abc),
         _ => None,
+    }
+}
+
+// ------------------------------------------------------------------------------------------------
+// alternative entry points (C14 and C15)
+
+/// one case in two, chosen by a hash of the case line
+pub fn alt_share(line: &str) -> bool {
+    fnv_nats(line.bytes().map(|b| b as usize)) % 2 == 0
+}
+
+macro_rules! with_reader {
+    ($fmt:expr, $alpha:expr, $rd:expr, $it:ident => $body:expr) => {
+        match ($fmt, $alpha) {
+            ("jaspar", _) => {
+                let $it = lightmotif_io::jaspar::read($rd);
+                $body
+            }
+            ("jaspar16", "dna") => {
+                let $it = lightmotif_io::jaspar16::read::<_, Dna>($rd);
+                $body
+            }
+            ("jaspar16", _) => {
+                let $it = lightmotif_io::jaspar16::read::<_, Protein>($rd);
+                $body
+            }
+            ("uniprobe", "dna") => {
+                let $it = lightmotif_io::uniprobe::read::<_, Dna>($rd);
+                $body
+            }
+            ("uniprobe", _) => {
+                let $it = lightmotif_io::uniprobe::read::<_, Protein>($rd);
+                $body
+            }
+            ("transfac", "dna") => {
+                let $it = lightmotif_io::transfac::read::<_, Dna>($rd);
+                $body
+            }
+            ("transfac", _) => {
+                let $it = lightmotif_io::transfac::read::<_, Protein>($rd);
+                $body
+            }
+            _ => panic!("bad format"),
+        }
+    };
+}
+
+/// one reference of a TRANSFAC record as a naive reading of its lines gives it:
+/// (number, cross-reference, PubMed id, title, link)
+type RefSpec = (u32, Option<String>, Option<String>, Option<String>, Option<String>);
+
+/// per record of a well-formed TRANSFAC file (the dialect `gen_transfac` writes): its references
+fn expected_refs(text: &str) -> Option<Vec<Vec<RefSpec>>> {
+    let mut lines = text.split('\n').peekable();
+    if text.starts_with("VV") {
+        for l in lines.by_ref() {
+            if l.starts_with("//") {
+                break;
+            }
+        }
+    }
+    let mut out: Vec<Vec<RefSpec>> = Vec::new();
+    let mut cur: Vec<RefSpec> = Vec::new();
+    let mut open = false;
+    for l in lines {
+        if l.starts_with("//") {
+            out.push(std::mem::take(&mut cur));
+            open = false;
+            continue;
+        }
+        if l.is_empty() {
+            continue;
+        }
+        open = true;
+        let body = l.get(2..)?;
+        match l.get(..2)? {
+            "RN" => {
+                let b = body.trim_matches(is_uws);
+                let close = b.find(']')?;
+                let n: u32 = b.strip_prefix('[')?.get(..close - 1)?.parse().ok()?;
+                let rest = &b[close + 1..];
+                let xref = match rest.strip_prefix(';') {
+                    Some(x) => Some(x[..x.find('.')?].trim_matches(is_uws).to_string()),
+                    None => None,
+                };
+                cur.push((n, xref, None, None, None));
+            }
+            "RX" => {
+                let b = body.trim_matches(is_uws).strip_prefix("PUBMED:")?.trim_start_matches(|c| c == ' ' || c == '\t');
+                cur.last_mut()?.2 = Some(b[..b.find('.')?].to_string());
+            }
+            "RT" => cur.last_mut()?.3 = Some(body.trim_matches(is_uws).to_string()),
+            "RL" => cur.last_mut()?.4 = Some(body.trim_matches(is_uws).to_string()),
+            _ => {}
+        }
+    }
+    if open {
+        return None;
+    }
+    Some(out)
+}
+
+pub struct AltCtx {
+    refs: Option<Vec<Vec<RefSpec>>>,
+    salt: u64,
+}
+
+/// the accessors and conversions of one record against each other
+pub trait RecordAlt {
+    fn check(&self, index: usize, ctx: &AltCtx) -> Result<(), String>;
+}
+
+fn same_u32<A: Alphabet>(a: &CountMatrix<A>, b: &CountMatrix<A>) -> bool {
+    dump_u32::<A>(a.matrix()) == dump_u32::<A>(b.matrix()) && a.sequence_count() == b.sequence_count() && a.len() == b.len()
+}
+
+fn same_f32<A: Alphabet>(a: &FrequencyMatrix<A>, b: &FrequencyMatrix<A>) -> bool {
+    dump_f32::<A>(a.matrix()) == dump_f32::<A>(b.matrix()) && a.len() == b.len()
+}
+
+impl RecordAlt for lightmotif_io::jaspar::Record {
+    fn check(&self, index: usize, _ctx: &AltCtx) -> Result<(), String> {
+        let m: &CountMatrix<Dna> = self.matrix();
+        let a: &CountMatrix<Dna> = self.as_ref();
+        let c = self.clone();
+        if !same_u32(a, m) || a != m {
+            return Err(format!("record {}: as_ref() differs from matrix()", index));
+        }
+        if c.id() != self.id() || c.description() != self.description() || !same_u32(c.matrix(), m) {
+            return Err(format!("record {}: clone() differs from the record", index));
+        }
+        let v: CountMatrix<Dna> = c.into();
+        if !same_u32(&v, m) || &v != m {
+            return Err(format!("record {}: CountMatrix::from(record) differs from matrix()", index));
+        }
+        Ok(())
+    }
+}
+
+impl<A: Alphabet> RecordAlt for lightmotif_io::jaspar16::Record<A> {
+    fn check(&self, index: usize, _ctx: &AltCtx) -> Result<(), String> {
+        let m: &CountMatrix<A> = self.matrix();
+        let a: &CountMatrix<A> = self.as_ref();
+        let c = self.clone();
+        if !same_u32(a, m) {
+            return Err(format!("record {}: as_ref() differs from matrix()", index));
+        }
+        if c.id() != self.id() || c.description() != self.description() || !same_u32(c.matrix(), m) {
+            return Err(format!("record {}: clone() differs from the record", index));
+        }
+        if !same_u32(&c.into_matrix(), m) {
+            return Err(format!("record {}: into_matrix() differs from matrix()", index));
+        }
+        Ok(())
+    }
+}
+
+impl<A: Alphabet> RecordAlt for lightmotif_io::uniprobe::Record<A> {
+    fn check(&self, index: usize, _ctx: &AltCtx) -> Result<(), String> {
+        let m: &FrequencyMatrix<A> = self.matrix();
+        let a: &FrequencyMatrix<A> = self.as_ref();
+        let c = self.clone();
+        if !same_f32(a, m) {
+            return Err(format!("record {}: as_ref() differs from matrix()", index));
+        }
+        if c.id() != self.id() || !same_f32(c.matrix(), m) {
+            return Err(format!("record {}: clone() differs from the record", index));
+        }
+        if !same_f32(&c.into_matrix(), m) {
+            return Err(format!("record {}: into_matrix() differs from matrix()", index));
+        }
+        Ok(())
+    }
+}
+
+impl<A: Alphabet> RecordAlt for lightmotif_io::transfac::Record<A> {
+    fn check(&self, index: usize, ctx: &AltCtx) -> Result<(), String> {
+        let c = self.clone();
+        if dump_transfac(&c) != dump_transfac(self) || c.references().len() != self.references().len() {
+            return Err(format!("record {}: clone() differs from the record", index));
+        }
+        // ---- to_freq: with the pseudocount as f32 / array / Pseudocounts; against the count-matrix route
+        let k = letters_of::<A>().len();
+        let p: f32 = *[0.0f32, 0.5, 0.25, 1.0].get(((ctx.salt as usize) + index) % 4).unwrap();
+        let pc = Pseudocounts::<A>::from(p);
+        let arr = pc.counts().clone();
+        let f = self.to_freq(p);
+        let show = |f: &Option<FrequencyMatrix<A>>| f.as_ref().map(|m| dump_f32::<A>(m.matrix()));
+        if show(&self.to_freq(pc.clone())) != show(&f) || show(&self.to_freq(arr)) != show(&f) || show(&c.to_freq(p)) != show(&f) {
+            return Err(format!("record {}: to_freq({}) differs between f32 / array / Pseudocounts / clone", index, p));
+        }
+        match self.data() {
+            None => {
+                if f.is_some() || self.to_counts().is_some() {
+                    return Err(format!("record {}: to_freq / to_counts of a record without matrix is not None", index));
+                }
+            }
+            Some(d) => {
+                if let Some(m) = &f {
+                    if m.len() != d.rows() {
+                        return Err(format!("record {}: to_freq has {} rows, data() has {}", index, m.len(), d.rows()));
+                    }
+                }
+                // count data that f32 holds exactly: the same frequencies as CountMatrix::to_freq
+                let exact = (0..d.rows()).all(|i| (0..k).all(|j| d[i][j] >= 0.0 && d[i][j] <= 16_777_216.0 && d[i][j].fract() == 0.0));
+                match self.to_counts() {
+                    Some(cm) if exact => {
+                        let g = cm.to_freq(pc.clone());
+                        let want = FrequencyMatrix::<A>::new(g.matrix().clone()).ok();
+                        if show(&want) != show(&f) {
+                            return Err(format!("record {}: to_freq({}) differs from to_counts().to_freq({})", index, p, p));
+                        }
+                    }
+                    None if exact => return Err(format!("record {}: to_counts() is None on integral data", index)),
+                    _ => {}
+                }
+            }
+        }
+        // ---- references against a naive reading of the R* lines (well-formed files only)
+        if let Some(all) = &ctx.refs {
+            let want = all.get(index).ok_or_else(|| format!("record {}: no such record in the text", index))?;
+            let got: Vec<RefSpec> = self
+                .references()
+                .iter()
+                .map(|r| (r.number().local(), r.number().xref().map(String::from), r.pmid().map(String::from), r.title().map(String::from), r.link().map(String::from)))
+                .collect();
+            if &got != want {
+                return Err(format!("record {}: references() = {:?} but the text has {:?}", index, got, want));
+            }
+        }
+        Ok(())
+    }
+}
+
+/// the public constructors of the TRANSFAC reference types
+fn reference_types() -> Result<(), String> {
+    use lightmotif_io::transfac::Reference;
+    use lightmotif_io::transfac::ReferenceNumber;
+    let a = ReferenceNumber::new(7);
+    let b = ReferenceNumber::with_xref(8, Some("RE1".to_string()));
+    let c = ReferenceNumber::with_xref(9, "RE2".to_string());
+    let d = ReferenceNumber::with_xref(10, None);
+    if (a.local(), a.xref()) != (7, None) || (b.local(), b.xref()) != (8, Some("RE1")) || (c.local(), c.xref()) != (9, Some("RE2")) || (d.local(), d.xref()) != (10, None) {
+        return Err("ReferenceNumber::new / with_xref: local() / xref() are not the values given".into());
+    }
+    let r = Reference::new(b.clone());
+    if r.number().local() != 8 || r.number().xref() != Some("RE1") || r.title().is_some() || r.link().is_some() || r.pmid().is_some() || r.clone().number().local() != 8 {
+        return Err("Reference::new: number() is not the one given or a field is set".into());
+    }
+    Ok(())
+}
+
+fn first_diff(name: &str, got: &str, want: &str) -> String {
+    let (a, b): (Vec<&str>, Vec<&str>) = (got.split(" ; ").collect(), want.split(" ; ").collect());
+    let i = a.iter().zip(b.iter()).position(|(x, y)| x != y).unwrap_or(a.len().min(b.len()));
+    let clip = |s: Option<&&str>| s.map(|x| x.chars().take(120).collect::<String>()).unwrap_or_else(|| "<nothing>".into());
+    format!("{}: call {} answers [{}] but the main route (read + next) answered [{}]", name, i, clip(a.get(i)), clip(b.get(i)))
+}
+
+/// `ans` = the answer of the main route (`drive` with the same `detail` / `extra`); `any_chunking`:
+/// the file is well-formed (C14), so the answer may not depend on the `BufRead` either
+pub fn alt(c: &Case, ans: &str, detail: bool, extra: usize, any_chunking: bool) -> Result<(), String> {
+    let len = c.data.len();
+    let (fmt, alpha) = (c.fmt.as_str(), c.alpha.as_str());
+    if ans.contains("panic") || ans.contains("hang") || ans == "bad-format" {
+        return Ok(());
+    }
+    reference_types()?;
+    for (name, route) in [("Reader::new", Route::New), ("Reader::new consumed through Iterator adaptors", Route::Adapted)] {
+        let a = drive_on(fmt, alpha, || ChunkedReader::new(&c.data, &c.sched), route, detail, extra, len);
+        if a != ans {
+            return Err(first_diff(name, &a, ans));
+        }
+    }
+    if any_chunking {
+        let cap = 1 + len % 61;
+        let a = drive_on(fmt, alpha, || std::io::Cursor::new(c.data.clone()), Route::Free, detail, extra, len);
+        if a != ans {
+            return Err(first_diff("read over io::Cursor", &a, ans));
+        }
+        let a = drive_on(fmt, alpha, || &c.data[..], Route::New, detail, extra, len);
+        if a != ans {
+            return Err(first_diff("Reader::new over &[u8]", &a, ans));
+        }
+        if len <= 20_000 {
+            let a = drive_on(fmt, alpha, || std::io::BufReader::with_capacity(cap, &c.data[..]), Route::Adapted, detail, extra, len);
+            if a != ans {
+                return Err(first_diff(&format!("Reader::new over BufReader::with_capacity({}) through Iterator adaptors", cap), &a, ans));
+            }
+        }
+    }
+    // the outcome classes of the main route: leading records, then the first thing that is not a record
+    let toks: Vec<&str> = ans.split(" ; ").collect();
+    let nrec = toks.iter().take_while(|t| t.starts_with("R ") || **t == "rec").count();
+    let stop = toks.get(nrec).copied().unwrap_or("end");
+    // collect::<Result<Vec<_>, _>>(): the records, or the first error
+    let want = if stop == "end" { format!("ok {}", nrec) } else { stop.to_string() };
+    let got = with_reader!(fmt, alpha, ChunkedReader::new(&c.data, &c.sched), it => match guarded(|| it.collect::<Result<Vec<_>, Error>>()) {
+        Err(()) => "panic".to_string(),
+        Ok(Ok(v)) => format!("ok {}", v.len()),
+        Ok(Err(e)) => kind(&e).to_string(),
+    });
+    if got != want {
+        return Err(format!("collect::<Result<Vec<_>, _>>() gives {} but the main route gives {} records and then {}", got, nrec, stop));
+    }
+    // size_hint() before and after the first item brackets what remains (when the input ends)
+    if stop == "end" {
+        let r = with_reader!(fmt, alpha, ChunkedReader::new(&c.data, &c.sched), it => guarded(|| {
+            let mut it = it;
+            let h0 = it.size_hint();
+            let first = it.next().is_some() as usize;
+            let h1 = it.size_hint();
+            (h0, first, h1)
+        }));
+        match r {
+            Err(()) => return Err("size_hint() / next panicked".into()),
+            Ok((h0, first, h1)) => {
+                let ok = |h: (usize, Option<usize>), n: usize| h.0 <= n && h.1.map_or(true, |u| u >= n);
+                if !ok(h0, nrec) || !ok(h1, nrec - first.min(nrec)) {
+                    return Err(format!("size_hint() = {:?}, after one item {:?}, but the reader yields {} records", h0, h1, nrec));
+                }
+            }
+        }
+    }
+    // every record: accessors and conversions
+    let ctx = AltCtx {
+        refs: if any_chunking && fmt == "transfac" { std::str::from_utf8(&c.data).ok().and_then(expected_refs) } else { None },
+        salt: len as u64,
+    };
+    let r = with_reader!(fmt, alpha, ChunkedReader::new(&c.data, &c.sched), it => guarded(|| {
+        for (i, item) in it.take(nrec).enumerate() {
+            match item {
+                Ok(rec) => RecordAlt::check(&rec, i, &ctx)?,
+                Err(_) => return Err(format!("item {} is an error on the second reading", i)),
+            }
+        }
+        Ok(())
+    }));
+    match r {
+        Err(()) => Err("a record accessor / conversion panicked".into()),
+        Ok(r) => r,
+    }
+}
+
+/// add the alternative-entry-point clause to the main verdict
+pub fn with_alt(line: &str, c: &Case, ans: &str, o: Option<Result<(), String>>, detail: bool, extra: usize, any_chunking: bool) -> (Option<Result<(), String>>, bool) {
+    if matches!(o, Some(Err(_))) || !alt_share(line) {
+        return (o, false);
+    }
+    match guarded(|| alt(c, ans, detail, extra, any_chunking)) {
+        Ok(Ok(())) => (o, true),
+        Ok(Err(e)) => (Some(Err(format!("alternative entry point: {}", e))), true),
+        Err(()) => (Some(Err("alternative entry point: panic".into())), true),
     }
 }
 
@@ -1130,8 +1548,16 @@ pub fn exec(line: &str) -> (String, Option<Result<(), String>>, bool) {
             Err(format!("call {}: got [{}] expected [{}]", i, clip(a.get(i)), clip(b.get(i))))
         }),
     };
+    // the alternative entry points: only where the file is well-formed by the oracle's reading (then the
+    // answer may depend neither on the chunking nor on the BufRead)
+    let wellformed = matches!(o, Some(Ok(())));
+    let (o, alt_run) = if wellformed { with_alt(line, &c, &ans, o, true, 0, true) } else { (o, false) };
+    ALT_RUN.store(alt_run, std::sync::atomic::Ordering::Relaxed);
     (ans, o, nontrivial)
 }
+
+/// whether the last `exec` drove the alternative entry points (for the stats)
+pub static ALT_RUN: std::sync::atomic::AtomicBool = std::sync::atomic::AtomicBool::new(false);
 
 pub fn run(cfg: &Cfg) {
     let cases = crate::replay_cases(cfg).unwrap_or_else(|| generate(cfg));
@@ -1149,6 +1575,9 @@ pub fn run(cfg: &Cfg) {
             _ => "records/100+",
         });
         out.stat(if o.is_none() { "oracle/not-applicable" } else { "oracle/applied" });
+        if ALT_RUN.load(std::sync::atomic::Ordering::Relaxed) {
+            out.stat("alternative-entry-points");
+        }
         if ans.contains("panic") {
             out.panics += 1;
         }
